@@ -1,14 +1,59 @@
 use crate::engine::{DefaultEngine, Engine};
-use crate::goal::Goal;
+use crate::goal::{DFSGoal, Goal};
 use crate::lresult::LResult;
 use crate::lterm::LTerm;
-use crate::solver::Solver;
+use crate::solver::{Solve, Solver};
 use crate::state::State;
-use crate::stream::Stream;
+use crate::stream::{LazyStream, Stream};
 use crate::user::{DefaultUser, User};
 use std::iter::FusedIterator;
 use std::marker::PhantomData;
 use std::rc::Rc;
+
+/// The body of a query followed by the reification of its answers.
+///
+/// Each answer of `body` is reified to completion before the next one is looked at, so the
+/// answers reach the caller in the order in which the search produced them. (A plain
+/// conjunction interleaves the reification of one answer with the search for the next ones:
+/// an answer whose term is larger then overtakes, and `dfs { }` queries lost Prolog order.)
+#[derive(Derivative)]
+#[derivative(Debug(bound = "U: User"))]
+struct Reified<U, E>
+where
+    U: User,
+    E: Engine<U>,
+{
+    body: Goal<U, E>,
+    reify: DFSGoal<U, E>,
+}
+
+impl<U, E> Solve<U, E> for Reified<U, E>
+where
+    U: User,
+    E: Engine<U>,
+{
+    fn solve(&self, _solver: &Solver<U, E>, state: State<U, E>) -> Stream<U, E> {
+        Stream::lazy_bind_dfs(
+            LazyStream::pause(Box::new(state), self.body.clone()),
+            self.reify.clone(),
+        )
+    }
+}
+
+#[doc(hidden)]
+pub fn reified<U, E>(body: Goal<U, E>, reify: Goal<U, E>) -> Goal<U, E>
+where
+    U: User,
+    E: Engine<U>,
+{
+    let reify = match reify {
+        Goal::Succeed => DFSGoal::Succeed,
+        Goal::Fail => DFSGoal::Fail,
+        Goal::Breakpoint(id) => DFSGoal::Breakpoint(id),
+        Goal::Dynamic(dynamic) => DFSGoal::Dynamic(dynamic),
+    };
+    Goal::Dynamic(Rc::new(Reified { body, reify }))
+}
 
 pub trait QueryResult<U = DefaultUser, E = DefaultEngine<U>>
 where
